@@ -4,6 +4,7 @@ import (
 	"encoding/hex"
 	"encoding/json"
 	"fmt"
+	"os"
 	"strconv"
 
 	"github.com/elnosh/gonuts/cashu"
@@ -132,6 +133,19 @@ func c10HistSpecs(quick bool) []*bfs.Spec {
 
 var c10HistAll = specMap(c10HistSpecs(true), c10HistSpecs(false))
 
+func c10WSpecs(quick bool) []*wSpec {
+	d, sfx := 2, "-q"
+	if !quick {
+		d, sfx = 3, ""
+	}
+	return []*wSpec{
+		{Prop: "C10", Name: "C10-wallet-crossmint-rotated" + sfx, Cfg: crossMintCfg, Init: crossMintRotatedInit, Menu: crossMintP2PKMenu, Depth: d, NoInvariants: true},
+		{Prop: "C10", Name: "C10-wallet-crossmint" + sfx, Cfg: crossMintCfg, Init: []string{"mint|2|16", "mint|0|8"}, Menu: crossMintP2PKMenu, Depth: d, NoInvariants: true},
+	}
+}
+
+var c10WAll = wSpecMap(c10WSpecs(true), c10WSpecs(false))
+
 func init() {
 	p := Registry["C10"]
 	enum := p.Run
@@ -139,10 +153,27 @@ func init() {
 		enum(c)
 		c.Cov["rule_history"] = "history part: E3 over the C15 alphabet (mint, swap, melt, internal settlement, rotation, restart) up to the depth bound; every signature returned by the mint is verified against the published key of its keyset and amount (blind-signature DLEQ and proof DLEQ with r); in every state restore batches in every order (fully signed, with a never-signed output) must pair each returned B_ with a signature that verifies for it and unblinds with its r"
 		runSpecs(c, c10HistSpecs(c.Quick()))
+		c.Cov["rule_wallets"] = "wallet part: E3 on the wallet world over the cross-mint menu (plain and P2PK tokens of a second mint, received with and without swap to the trusted mint), from a state in which that mint rotated its keyset before the receiving wallet added it and the sender still holds ecash of the old keyset: a Receive that fails with 'invalid DLEQ' although every DLEQ proof of the token verifies under the published key of its own keyset is a violation (the proof a wallet attaches to a token is accepted by a third party)"
+		runWSpecs(c, c10WSpecs(c.Quick()))
 	}
-	p.Worker = bfs.Worker(c10HistAll)
+	p.Worker = func(job json.RawMessage) (any, error) {
+		var probe struct{ Spec string }
+		json.Unmarshal(job, &probe)
+		if _, ok := c10WAll[probe.Spec]; ok {
+			return wWorker(c10WAll)(job)
+		}
+		return bfs.Worker(c10HistAll)(job)
+	}
 	enumReplay := p.Replay
 	p.Replay = func(path string) int {
+		if b, err := os.ReadFile(path); err == nil {
+			var v struct{ Replay struct{ Spec string } }
+			if json.Unmarshal(b, &v) == nil {
+				if _, ok := c10WAll[v.Replay.Spec]; ok {
+					return wReplay("C10", c10WAll, path)
+				}
+			}
+		}
 		if code := bfs.ReplayFile("C10", c10HistAll, path); code != 2 {
 			return code
 		}
